@@ -170,7 +170,7 @@ ToJ(T, v) ==
     [] T[1] = "enum" -> JStr(T[2][v[2]])                                                \* [GEN (9),(10)]
     [] T[1] = "struct" -> StructJ(T[2], v[2])
     [] T[1] = "bits" -> JStr(BitsHex(v[2]))
-    [] T[1] = "secs" -> JInt(v[2])                                                      \* [BI duration], [GEN A2 "generated": 1514862245]
+    [] T[1] = "secs" -> IF v[1] = "i" THEN JInt(v[2]) ELSE JWide(v[2], v[3])            \* [BI duration], [GEN A2 "generated": 1514862245]
 
 (****************************** Is ****************************************)
 (* [JT]/[IS]: is() "indicates whether j satisfies the requirements of T"   *)
@@ -192,7 +192,7 @@ Is(T, j) ==
     \* [GEN A4, A8]: "the type selection strategy is based on the presence of mandatory members"
     [] T[1] = "struct" -> IsObj(j) /\ \A i \in 1..Len(T[2]) : T[2][i].m => T[2][i].n \in DOMAIN j[2]
     [] T[1] = "bits" -> j[1] = "str"
-    [] T[1] = "secs" -> j[1] = "int"
+    [] T[1] = "secs" -> j[1] = "int" \/ (j[1] = "wide" /\ InRange("i64", j))
 
 (****************************** FromJ *************************************)
 (* Result: <<"ok", v>> | <<"err">> (a conversion error must be reported)   *)
@@ -299,6 +299,7 @@ FromJ(T, j) ==
          ELSE Err
     [] T[1] = "secs" ->
          IF j[1] = "int" THEN Ok(<<"i", j[2]>>)
+         ELSE IF j[1] = "wide" /\ InRange("i64", j) THEN Ok(<<"iw", j[2], j[3]>>)          \* a count of seconds beyond 2^31 (the rep is 64 bits wide)
          ELSE IF j[1] \in {"bool", "wide", "dec"} \/ (j[1] = "str" /\ LooksNumeric(j[2])) THEN DC
          ELSE Err
 
@@ -334,7 +335,10 @@ Vals(T, U) ==
     [] T[1] = "enum" -> { <<"en", k>> : k \in 1..Len(T[2]) }
     [] T[1] = "struct" -> { <<"rec", s>> : s \in ProdSeq([i \in 1..Len(T[2]) |-> Vals(T[2][i].t, U)]) }
     [] T[1] = "bits" -> { <<"bits", b>> : b \in {c \in U.bits : Len(c) = T[2]} }
+    \* (beyond 2^31: 9223372037 s = the first count whose nanoseconds exceed int64; 2^34 = where the MessagePack timestamp 64 ends; year 9999)
     [] T[1] = "secs" -> { <<"i", n>> : n \in U.ints }
+                        \cup { <<"iw", FALSE, <<57,50,50,51,51,55,50,48,51,55>>>>, <<"iw", TRUE, <<57,50,50,51,51,55,50,48,51,55>>>>, <<"iw", FALSE, <<49,55,49,55,57,56,54,57,49,56,52>>>>,
+                               <<"iw", FALSE, <<50,53,51,52,48,50,51,48,48,56,48,48>>>>, <<"iw", FALSE, <<52,50,57,52,57,54,55,50,57,54>>>> }
 
 (**************** wire form of typed values (for emission) *****************)
 RECURSIVE VWire(_)
